@@ -64,15 +64,30 @@ class SJobs(Sym):
 
 
 class SMapTok(Sym):
-    def __init__(self, ns):
-        self.ns = ns
+    """job.cached_statepoint / job.document (or a mapping nested in it): whether a key is present is symbolic"""
+
+    def __init__(self, ns, path=()):
+        self.ns, self.path = ns, path
+
+    def child(self, ex, k, label):
+        full = self.path + (k,)
+        present = z3.Bool("has[" + self.ns + "." + ".".join(full) + "]")
+        return full, ex.decide(present, label)
 
     def sym_getitem(self, ex, k):
-        return ("own-value", self.ns, k)
+        if not isinstance(k, str):
+            raise Unsupported("mapping subscript")
+        full, has = self.child(ex, k, f"{self.ns}: has {'.'.join(self.path + (k,))}")
+        if not has:
+            raise RaiseSignal(KeyError(k))
+        return SMapTok(self.ns, full)          # the value under that key (itself subscriptable if it is a mapping)
 
     def sym_getattr(self, ex, name):
         if name == "get":
-            return NativeStub(lambda k, d=None: ("own-value-or-default", self.ns, k, d), "mapping.get")
+            def get(k, d=None):
+                full, has = self.child(ex, k, f"{self.ns}: has {'.'.join(self.path + (k,))}")
+                return SMapTok(self.ns, full) if has else d
+            return NativeStub(get, "mapping.get")
         raise Unsupported(f"mapping.{name}")
 
 
@@ -114,7 +129,8 @@ def stub_find_jobs(interp, b):
     return SJobs(b["filter"])
 
 
-KEYS = {"k": ["k"], "sp.k": ["sp.k"], "doc.k": ["doc.k"], "tuple": ("a", "doc.b", "sp.c"), "list1": ["k"], "none": None, "callable": "callable"}
+KEYS = {"k": ["k"], "sp.k": ["sp.k"], "doc.k": ["doc.k"], "n.k": ["n.k"], "sp.n.k": ["sp.n.k"], "doc.n.k": ["doc.n.k"], "tuple": ("a", "doc.b", "sp.c.d"), "list1": ["k"],
+        "none": None, "callable": "callable"}
 
 
 class Groupby(Contract):
@@ -122,7 +138,7 @@ class Groupby(Contract):
     properties = ("C07",)
     ctx_class = GroupCtx
     callees = {f"{PRJ}.Project.find_jobs": stub_find_jobs}
-    assumptions = ("grouping keys are flat names with an optional sp./doc. namespace (nested keys: known finding F6)",
+    assumptions = ("grouping keys are (possibly nested, i.e. dotted) names with an optional sp./doc. namespace",
                    "itertools.groupby over a list sorted by the same key function partitions it into maximal runs of equal labels (library contract)")
 
     def cases(self):
@@ -130,10 +146,10 @@ class Groupby(Contract):
 
     def the_key(self, case):
         k = case["key"]
-        if k in ("k", "sp.k", "doc.k"):
+        if k in ("k", "sp.k", "doc.k", "n.k", "sp.n.k", "doc.n.k"):
             return k
         if k == "tuple":
-            return ("a", "doc.b", "sp.c")
+            return ("a", "doc.b", "sp.c.d")
         if k == "list1":
             return ["k"]
         if k == "none":
@@ -170,21 +186,42 @@ class Groupby(Contract):
             want = z3.And(want, *[HAS(k)(x) for k in keys])
         ex.oblige(self.oname("ensures:exactly_the_jobs_the_cursor_selects_(and_that_have_every_grouping_key_when_no_default_is_given)_are_grouped"),
                   z3.ForAll([x], sem(fj[0], x) == want), note=f"filter handed to find_jobs: {fj[0]!r}")
-        # the label of a job is its own value for the key(s)
-        label = interp.call(srt[1], [SJobTok()], {})
-
-        def own(k):
+        # the label of a job is its own value for the key(s): looked up level by level in the right namespace; with a default, the
+        # default exactly when some level is missing; without one, every level is there (the filter guarantees it) or KeyError
+        def want_of(k):
             ns, name = norm(k).split(".", 1)
-            return ("own-value", ns, name) if default is None else ("own-value-or-default", ns, name, default)
-        if isinstance(key, str):
-            ok = label == own(key)
-        elif isinstance(key, (tuple, list)):
-            ok = isinstance(label, tuple) and sorted(map(repr, label)) == sorted(repr(own(k)) for k in key)
-        elif key is None:
-            ok = label == ("own-id",)
+            return ns, tuple(name.split("."))
+
+        def check_one(lab, k):
+            ns, path = want_of(k)
+            all_present = z3.And(*[z3.Bool("has[" + ns + "." + ".".join(path[:i + 1]) + "]") for i in range(len(path))])
+            if isinstance(lab, SMapTok):
+                return z3.And(z3.BoolVal(lab.ns == ns and lab.path == path), all_present)
+            return z3.And(z3.BoolVal(default is not None and lab is default), z3.Not(all_present))
+        try:
+            label = ("value", interp.call(srt[1], [SJobTok()], {}))
+        except RaiseSignal as e:
+            label = ("raise", e.exc)
+        if key is None:
+            ok = z3.BoolVal(label == ("value", ("own-id",)))
+        elif not isinstance(key, (str, tuple, list)):
+            ok = z3.BoolVal(label == ("value", ("user-label",)))
+        elif label[0] == "raise":
+            # only without a default, and only when the job lacks the key (such jobs are not selected: the has-every-key filter)
+            ks = [key] if isinstance(key, str) else list(key)
+            missing = z3.Or(*[z3.Not(z3.And(*[z3.Bool("has[" + want_of(k)[0] + "." + ".".join(want_of(k)[1][:i + 1]) + "]") for i in range(len(want_of(k)[1]))])) for k in ks])
+            ok = z3.And(z3.BoolVal(isinstance(label[1], KeyError) and default is None), missing)
+        elif isinstance(key, str):
+            ok = check_one(label[1], key)
         else:
-            ok = label == ("user-label",)
-        ex.oblige(self.oname("ensures:the_label_of_a_job_is_its_own_value_for_the_grouping_key(s)"), z3.BoolVal(bool(ok)), note=f"label {label!r}")
+            labs = label[1]
+            if not isinstance(labs, tuple) or len(labs) != len(key):
+                ok = z3.BoolVal(False)
+            else:
+                # the code lists state point keys first, then document keys
+                order = [k for k in key if not norm(k).startswith("doc.")] + [k for k in key if norm(k).startswith("doc.")]
+                ok = z3.And(*[check_one(lv, k) for lv, k in zip(labs, order)])
+        ex.oblige(self.oname("ensures:the_label_of_a_job_is_its_own_value_for_the_grouping_key(s)"), ok, note=f"label {label!r}")
 
 
 CONTRACTS = [Groupby()]
